@@ -70,6 +70,14 @@ def cases(ctx):
             prog = gs.gen_source(rng, st, n, pool=pool, pressure=True)
         else:
             prog = gs.gen_source(rng, st, n, npool=rng.choice([4, 6, 10, 14]))
+        if rng.random() < 0.3:
+            # the program repeats an instruction whose only literal sits INSIDE an array entry / slice (an IR built by hand lists
+            # the same command object twice): both occurrences need their literal materialised
+            cands = [ins for ins in prog if ins and ins[0] in ("store", "load", "undef", "lea", "wait_all", "wait_any", "wait_single", "ret_arr")
+                     and not any(isinstance(o, list) and o and o[0] == "lit" for o in ins[1])
+                     and any(isinstance(o, list) and "'lit'" in repr(o) for o in ins[1])]
+            if cands:
+                prog = prog + [copy.deepcopy(rng.choice(cands))]
         items, label_pos = gs.add_labels(rng, prog)
         front = "text" if rng.random() < 0.6 else "ir"
         case = {"kind": front, "seed_regs": seed_vals, "items": items}
